@@ -84,7 +84,7 @@ fn ext_space() -> ProgSpace {
 pub fn run(ctx: &Ctx) -> Report {
     let mut rep = Report::new("C08", "exploration");
     let flagsets = flagsets_c08(ctx);
-    let spaces: Vec<ProgSpace> = vec![p5_full(), ext_space(), p_vectors(ctx.pick(2, 6))];
+    let spaces: Vec<ProgSpace> = vec![p5_full(), p_guard_args(), ext_space(), p_vectors(ctx.pick(2, 6))];
     let seed = ctx.seed;
     let mut notes = vec![];
     for sp in &spaces {
